@@ -30,6 +30,9 @@ type Parser struct {
 	args        []Term
 
 	buf tokenRingBuffer
+
+	// failed is true if the last call of next didn't deliver a token. There's nothing to back up then.
+	failed bool
 }
 
 // ParsedVariable is a set of information regarding a variable in a parsed term.
@@ -103,14 +106,21 @@ func (p *Parser) next() (Token, error) {
 	if p.buf.empty() {
 		t, err := p.lexer.Token()
 		if err != nil {
+			p.failed = true
 			return Token{}, err
 		}
 		p.buf.put(t)
 	}
+	p.failed = false
 	return p.buf.get(), nil
 }
 
 func (p *Parser) backup() {
+	if p.failed {
+		// Backing up a token which was never delivered would make the parser read stale tokens again, forever.
+		p.failed = false
+		return
+	}
 	p.buf.backup()
 }
 
